@@ -63,13 +63,13 @@ func AddrOf(pk crypto.PrivateKey) sdk.Address { return sdk.Address(pk.PublicKey(
 // Config is the swarm configuration of one run (all drawn from the seed, recorded in the
 // schedule, never re-drawn on replay).
 type Config struct {
-	KeySeed   uint64 `json:"key_seed"`
-	NWallets  int    `json:"wallets"`   // funded plain accounts: keys 0..NWallets-1
-	NNodes    int    `json:"nodes"`     // genesis validators: keys 100..100+NNodes-1, output keys 200..
-	NApps     int    `json:"apps"`      // genesis applications: keys 300..
-	NSpare    int    `json:"spare"`     // extra funded keys that can become nodes/apps: 400..
-	OwnerKey  int    `json:"owner_key"` // DAO owner / ACL owner key index (a wallet)
-	Chains    []string `json:"chains"`
+	KeySeed  uint64   `json:"key_seed"`
+	NWallets int      `json:"wallets"`   // funded plain accounts: keys 0..NWallets-1
+	NNodes   int      `json:"nodes"`     // genesis validators: keys 100..100+NNodes-1, output keys 200..
+	NApps    int      `json:"apps"`      // genesis applications: keys 300..
+	NSpare   int      `json:"spare"`     // extra funded keys that can become nodes/apps: 400..
+	OwnerKey int      `json:"owner_key"` // DAO owner / ACL owner key index (a wallet)
+	Chains   []string `json:"chains"`
 
 	// params
 	BlocksPerSession   int64 `json:"blocks_per_session"`
@@ -104,14 +104,14 @@ type Config struct {
 	Features           map[string]int64 `json:"features"`
 
 	// node-local knobs
-	IavlCache   int64 `json:"iavl_cache"`
-	HeightCache bool  `json:"height_cache"`
-	CtxCache    int   `json:"ctx_cache"`
-	AppCache    int   `json:"app_cache"`
-	ValCache    int   `json:"val_cache"`
-	SessionCache int  `json:"session_cache"`
-	EvidenceCache int `json:"evidence_cache"`
-	ClientBlockSyncAllowance int `json:"client_block_allowance"`
+	IavlCache                int64 `json:"iavl_cache"`
+	HeightCache              bool  `json:"height_cache"`
+	CtxCache                 int   `json:"ctx_cache"`
+	AppCache                 int   `json:"app_cache"`
+	ValCache                 int   `json:"val_cache"`
+	SessionCache             int   `json:"session_cache"`
+	EvidenceCache            int   `json:"evidence_cache"`
+	ClientBlockSyncAllowance int   `json:"client_block_allowance"`
 
 	Steps int `json:"n"`
 }
@@ -204,9 +204,15 @@ func NewNode(cfg *Config, name string, disks *Disks, restartNo int, servicers []
 	return n
 }
 
+// GenesisOverride, when set, replaces the generated genesis (C43 import child).
+var GenesisOverride app.GenesisState
+
 func (n *Node) start() {
 	cfg := n.Cfg
 	app.GenState = BuildGenesis(cfg)
+	if GenesisOverride != nil {
+		app.GenState = GenesisOverride
+	}
 	hosted := map[string]pocketTypes.HostedBlockchain{}
 	for _, c := range cfg.Chains {
 		hosted[c] = pocketTypes.HostedBlockchain{ID: c, URL: "http://hosted.sim/" + c}
